@@ -125,43 +125,63 @@ Proof. vm_compute. reflexivity. Qed.
 Definition spec_p08d : nspec := {| n_conv := 100; n_long := false; n_plus := true; n_space := false;
                                    n_zero := true; n_alt := false; n_width := 8; n_prec := None |}.
 
+Definition spec_lX : nspec := {| n_conv := 88; n_long := true; n_plus := false; n_space := false;
+                                 n_zero := false; n_alt := false; n_width := 0; n_prec := None |}.
+Definition spec_lx : nspec := {| n_conv := 120; n_long := true; n_plus := false; n_space := false;
+                                 n_zero := false; n_alt := false; n_width := 0; n_prec := None |}.
+
 Definition ex_items_f : list pitem :=
   [PShow (VFloat 4728057454355442549); PLit [44; 32]; PShow (VStr [97; 34]); PLit [59];
    PNum spec_li (VInt (-7)); PLit [32]; PNum (spec_f true) (VFloat 4591870180066957722); PLit [47];
-   PNum spec_p08d (VInt (-2147483648))].
+   PNum spec_p08d (VInt (-2147483648)); PLit [58]; PNum spec_lX (VInt (-5))].
 Definition ex_sitems_f : list sitem :=
   [SLook TFloat; SLit [44; 32]; SLook TStr; SLit [59]; SNum spec_li; SLit [32]; SNum (spec_f true); SLit [47];
-   SNum spec_d].
+   SNum spec_d; SLit [58]; SNum spec_lx].
 
 Ltac side :=
   first [ reflexivity | exact I
         | (right; split; reflexivity) | (left; reflexivity)
+        | (right; left; reflexivity) | (right; right; left; reflexivity) | (right; right; right; reflexivity)
         | (intros; vm_compute; reflexivity)
         | (vm_compute; discriminate)
         | (unfold showable, nul_free; repeat constructor; discriminate)
-        | (unfold in_range, two63, two31; cbn; lia)
+        | (unfold in_range, urange, two63, two31, two32; cbn; lia)
         | (vm_compute; repeat split; first [reflexivity | discriminate | (intros; discriminate)]) ].
 
 Example ex_wf_seq : wf_seq rt_cfg ex_items_f ex_sitems_f ex_rest.
 Proof.
   cbn [wf_seq ex_items_f ex_sitems_f ty_of].
-  repeat match goal with |- _ /\ _ => split end; side.
+  repeat match goal with
+         | |- _ /\ _ => split
+         | |- int_directive_ok _ spec_lX _ _ _ => right
+         | |- int_directive_ok _ _ _ _ _ => left
+         end; side.
 Qed.
 
 Example ex_wf_seq_run :
   scan_str rt_cfg (print_items rt_cfg ex_items_f ++ ex_rest) 0 ex_sitems_f []
-  = SOk [VFloat 4728057454355442563; VStr [97; 34]; VInt (-7); VFloat 4591870180066957722; VInt (-2147483648)] 47.
+  = SOk [VFloat 4728057454355442563; VStr [97; 34]; VInt (-7); VFloat 4591870180066957722; VInt (-2147483648); VInt (-5)] 64.
 Proof. vm_compute. reflexivity. Qed.
 
-(* Int through a numeric specification (signed decimal directives with flags and width) *)
-Lemma rt_int_spec_roundtrip : forall sp ssp z rest,
-  conv_signed (n_conv sp) = true ->
-  (n_conv ssp = 100 \/ (n_conv ssp = 105 /\ n_zero sp = false)) ->
-  in_range (n_long sp) z -> in_range (n_long ssp) z -> stops_int rest ->
+(* Int through a numeric specification: signed decimal directives with flags and width, unsigned
+   directives u x X o with 0 flag and width *)
+Lemma rt_int_spec_roundtrip : forall sp ssp z rest, int_directive_ok rt_cfg sp ssp z rest ->
   scan_num rt_cfg ssp (print_num sp (VInt z) ++ rest) = Some (VInt z, length (print_num sp (VInt z))).
+Proof. exact (int_directive_roundtrip rt_cfg). Qed.
+
+(* the `l`-less signed class is not empty for rt_cfg: the sign restoration is in the source *)
+Lemma rt_signext : cf_int_signext rt_cfg = true.
+Proof. vm_compute. reflexivity. Qed.
+
+Example ex_int_directive_d : int_directive_ok rt_cfg spec_p08d spec_d (-2147483648) ex_rest.
 Proof.
-  intros sp ssp z rest H1 H2 H3 H4 H5. apply int_dec_roundtrip; try assumption.
-  intros _. vm_compute. reflexivity.
+  left. repeat split; try reflexivity; try (left; reflexivity); try (cbn; unfold two31; lia); try discriminate.
+Qed.
+
+Example ex_int_directive_lX : int_directive_ok rt_cfg spec_lX spec_lx (-5) ex_rest.
+Proof.
+  right. repeat split; try reflexivity; try (cbn; unfold two63; lia); try discriminate;
+    try (right; right; left; reflexivity); try (right; left; reflexivity).
 Qed.
 
 Example ex_finite : finite 4728057454355442549.
